@@ -245,7 +245,8 @@ pub fn run_c16(ctx: &Ctx, rep: &mut Report) {
             if bt != between_def(a, b) {
                 rep.violation("C16/between", format!("between({},{}) = {} want {}", sq_name(a), sq_name(b), set_str(bt), set_str(between_def(a, b))));
             }
-            if a != b {
+            if a != b && aligned(a, b).is_some() {
+                // ("line" is specified for two aligned squares only)
                 let l = line(sa, sb).0;
                 if l != line_def(a, b) {
                     rep.violation("C16/line", format!("line({},{}) = {} want {}", sq_name(a), sq_name(b), set_str(l), set_str(line_def(a, b))));
